@@ -38,6 +38,14 @@ def subnetBroadcast (s : Nat × Nat) : Nat := subnetNetwork s ||| ((2 ^ 32 - 1) 
 
 inductive PM where | noMatch | failed | ok deriving DecidableEq, Repr
 
+/-- one `match-<option>` condition of `check_policy` -/
+def otherCondHolds (req : Req) (e : Nat × Option Bytes) : Bool :=
+  match e.2, lookupOpt req.pkt.options e.1 with
+  | none, none => true
+  | none, some _ => false
+  | some mat, some opt => mat == opt
+  | some _, none => false
+
 /-- `check_policy` -/
 def checkPolicy (req : Req) : Policy → PM
   | .mk matchAll matchChaddr matchSubnet matchOther _ _ _ =>
@@ -52,12 +60,7 @@ def checkPolicy (req : Req) : Policy → PM
              | none => some o1) with
       | none => .failed
       | some o2 =>
-        if matchOther.all (fun (k, m) =>
-            match m, lookupOpt req.pkt.options k with
-            | none, none => true
-            | none, some _ => false
-            | some mat, some opt => mat == opt
-            | some _, none => false)
+        if matchOther.all (otherCondHolds req)
         then (if matchOther.isEmpty then o2 else .ok)
         else .failed
 
@@ -131,6 +134,38 @@ def usedAddressesL : List Policy → List Nat
   | p :: ps => usedAddresses p ++ usedAddressesL ps
 end
 
+/-! `$self4`: an IPv4 address in an option value may be written `$self4` (loaded as 0.0.0.0), meaning the
+    address of the interface the request arrived on -/
+
+def resolveGroups (self : Bytes) : Bytes → Bytes
+  | a :: b :: c :: d :: rest => (if [a, b, c, d] == [0, 0, 0, 0] then self else [a, b, c, d]) ++ resolveGroups self rest
+  | rest => rest
+
+/-- classless routes as `DhcpOptionTypeValue::as_bytes` lays them out: length, four prefix octets, four next-hop octets -/
+def resolveRoutes (self : Bytes) : Bytes → Bytes
+  | l :: p1 :: p2 :: p3 :: p4 :: a :: b :: c :: d :: rest =>
+    [l, p1, p2, p3, p4] ++ (if [a, b, c, d] == [0, 0, 0, 0] then self else [a, b, c, d]) ++ resolveRoutes self rest
+  | rest => rest
+
+/-- the value of option `k` with `$self4` replaced, by the type of the option (table regenerated from dhcppkt.rs) -/
+def resolveSelf (req : Req) (k : Nat) (v : Bytes) : Bytes :=
+  if Generated.Dhcp.ipOptionCodes.contains k then resolveGroups (ser32 req.serverip) v
+  else if Generated.Dhcp.routeOptionCodes.contains k then resolveRoutes (ser32 req.serverip) v
+  else v
+
+/-- what `apply_policy` does to a value before applying it -/
+def implResolve (req : Req) (k : Nat) (v : Bytes) : Bytes :=
+  if Generated.Dhcp.policySelf4Resolved then resolveSelf req k v else v
+
+mutual
+/-- a policy forest with every applied value passed through `f` (conditions, addresses and structure untouched) -/
+def mapValues (f : Nat → Bytes → Bytes) : Policy → Policy
+  | .mk a b c d e o subs => .mk a b c d e (o.map fun kv => (kv.1, kv.2.map (f kv.1))) (mapValuesL f subs)
+def mapValuesL (f : Nat → Bytes → Bytes) : List Policy → List Policy
+  | [] => []
+  | p :: ps => mapValues f p :: mapValuesL f ps
+end
+
 /-- top-level configuration as `build_default_config` reads it -/
 structure Cfg where
   /-- `dns-servers`: `none` = `$self4` (INTERFACE4), `some ip` = an IPv4 literal (IPv6 entries are skipped) -/
@@ -146,11 +181,15 @@ structure Cfg where
 def defaultHostOffsets (len : Nat) : List Nat :=
   (List.range ((2 ^ (32 - len)) - Generated.Dhcp.defaultRangeUpperMinus)).filter (· ≥ 1)
 
-/-- `build_default_config` -/
-def buildDefault (cfg : Cfg) (req : Req) : Policy :=
-  let dns : Bytes := (cfg.dnsServers.map fun
+/-- the DHCP `dns-servers` default: the top-level list with `$self4` replaced by the receiving address -/
+def defaultDns (cfg : Cfg) (req : Req) : Bytes :=
+  (cfg.dnsServers.map fun
     | none => ser32 req.serverip
     | some ip => ser32 ip).flatten
+
+/-- `build_default_config` -/
+def buildDefault (cfg : Cfg) (req : Req) : Policy :=
+  let dns : Bytes := defaultDns cfg req
   let used := usedAddressesL cfg.policies
   let subs := (cfg.addresses.filter fun (_, len) => decide (Generated.Dhcp.defaultPoolMinLen ≤ len)).map fun (addr, len) =>
     let net := addr &&& netmask len
@@ -204,7 +243,7 @@ where
   go (isRequest : Bool) : Plan :=
     let r0 : Resp := setOpt (setOpt {} 53 (some [2])) 54 (some (ser32 req.serverip))
     let (r1, ok1) := applyPolicies req [buildDefault cfg req] r0
-    let (r2, ok2) := applyPolicies req cfg.policies r1
+    let (r2, ok2) := applyPolicies req (mapValuesL (implResolve req) cfg.policies) r1
     if !ok1 && !ok2 then .err .noPolicy else
     match r2.address with
     | none => .err .noLeasesConfigured
